@@ -63,7 +63,7 @@ def startHeader : Start → Option Header
 
 def modelReads (h : Header) (extra : List UInt8) : Reads :=
   let ids := getExtensionIDs h
-  { x := h.extension, profile := (C01.canonH h).extProfile,
+  { x := h.extension, profile := h.extProfile,
     ids := ids, gets := (ids ++ extra).map fun id => (id, C02.canonV (getExtension h id)) }
 
 def modelStep (h : Header) : Op → Option Err × Header
